@@ -358,6 +358,14 @@ C06 += [
         unwindset="hwloc__xml_import_memattr_value.0:8,verif_exact_string_of.0:4",
         note="hwloc__xml_import_memattr_value against the contract of the XML state API: any <= 6 attributes (the six it knows + unknown ones, arbitrary values), any attribute flags and id: memory safe, 0/-1, hwloc_internal_memattr_set_value is called exactly when the element is accepted, with a valid target type and a well-formed initiator; an initiator cpuset is released exactly once"),
 ]
+# work in progress, NOT registered (18 min; it reports that hwloc__xml_import_diff loses the already parsed diffs when a later child is rejected -- a leak on
+# an error path, seen natively with valgrind on a sub-agent's reproducer; replay + fix are left for the next session): ./check C06WIP
+XML_IMPORT_WIP = [
+    Job(name="xml_import_diff", driver="xml.drv.c", entry="hp_xml_import_diff", mode="plain", unwind=20, min_post=0, cost=90, family="xmlimport", label="bounded", timeout=1500, objbits=12, malloc_may_fail=False,
+        unwindset="hwloc__xml_import_diff.0:4,hwloc__xml_import_diff_one.0:7,verif_exact_string_of.0:4,hp_xml_import_diff.0:4,verif_counting_strdup.0:17", defines={"XA2": 6, "XC": 2},
+        note="hwloc__xml_import_diff / _diff_one against the contract of the XML state API: <= 2 children (diff / unknown) with any <= 6 attributes each (all names it knows + unknown, arbitrary values <= 2 chars; numbers arbitrary), allocations succeed: memory safe, 0/-1, and no allocation of the import is lost -- on failure everything allocated has been released, on success the returned list owns everything (allocation accounting through counting wrappers of malloc / strdup / free around the included source)"),
+]
+PROPS["C06WIP"] = XML_IMPORT_WIP
 PROPS["C06"] = C06 + [j for j in C05 if j.name.startswith("base64_decode_safe")]   # the decoder is also a leaf of the XML import (userdata)
 
 
